@@ -322,13 +322,17 @@ func (h *hist) verify(stage string, ti *truncInfo) {
 			n.ref, n.t, short(n.val), n.canon, n.n, ix.good[k], ix.anyRec[key3]-ix.good[k], ix.orphan[key3])
 		covered := false
 		if newCp && h.prev != nil {
+			// copies of this entry that lived in the segments the new checkpoint replaced (or in the
+			// old checkpoint): at least as many as are missing now (the other copies sit in newer
+			// segments and are still there)
 			locs := h.prev.allLoc[key3]
-			covered = len(locs) > 0
+			inCp := 0
 			for _, l := range locs {
-				if l > ix.scan.Checkpoint {
-					covered = false
+				if l <= ix.scan.Checkpoint {
+					inCp++
 				}
 			}
+			covered = inCp > 0 && inCp >= n.n-total
 		}
 		switch {
 		case total >= n.n && ix.anyRec[key3] > ix.good[k] && ix.orphan[key3] == 0:
